@@ -296,3 +296,64 @@ Theorem reachF_real u : CReachFK u ->
   /\ (C05_HostText.spb u = true -> forall s, host_str u = Some (Some s) -> C05_HostInst.host_text_clean s).
 Proof. intros H. exact (reachF_model2 dbg idna OK u (CReachFK_cap u H)). Qed.
 End Clean.
+
+(* ================= non-vacuity: a result-clean history with the stand-in oracle idna_long ================= *)
+(* idna_long satisfies IdnaOK2 and NOT IdnaOK (it answers "x" inside the class).  The history
+   Url::parse("http://a.b:81/p") ; quirks set_host("c.d:82") is result-clean in all three relations; its result is
+   http://c.d:82/p *)
+From Coq Require Import String.
+Local Notation Bq := C02_Reach.B.
+
+Lemma usv_small l : forallb (fun c => c <? 128) l = true -> usv_list l.
+Proof.
+  intros H. apply Forall_forall. intros x Hx. rewrite forallb_forall in H. specialize (H x Hx).
+  unfold is_usv. apply N.ltb_lt in H. lia.
+Qed.
+
+Example hist_real_inhabited :
+  exists u u',
+    parse_url true (host_parse idna_long) host_parse_opaque host_display None None (Bq "http://a.b:81/p") = POk u
+    /\ C02_Reach.apply_op true (host_parse idna_long) host_parse_opaque host_display u (C02_Reach.OQHost (Bq "c.d:82")) = Some u'
+    /\ ser u' = Bq "http://c.d:82/p"
+    /\ Reachable3K true idna_long u' /\ ReachC6K true idna_long u' /\ CReachFK true idna_long u'.
+Proof.
+  destruct (parse_url true (host_parse idna_long) host_parse_opaque host_display None None (Bq "http://a.b:81/p")) as [u| |] eqn:Ep;
+    try (vm_compute in Ep; discriminate Ep).
+  destruct (C02_Reach.apply_op true (host_parse idna_long) host_parse_opaque host_display u (C02_Reach.OQHost (Bq "c.d:82"))) as [u'|] eqn:Eo;
+    [|vm_compute in Ep; inversion Ep; subst u; vm_compute in Eo; discriminate Eo].
+  exists u, u'. split; [reflexivity|]. split; [exact Eo|].
+  assert (usv_list (Bq "http://a.b:81/p")) as U1 by (apply usv_small; vm_compute; reflexivity).
+  assert (usv_list (Bq "c.d:82")) as U2 by (apply usv_small; vm_compute; reflexivity).
+  assert (res_clean u = true /\ C02_Reach.Known_file_drive u = false
+          /\ C02_Stmt4.known_step3 true (host_parse idna_long) host_parse_opaque host_display u (C02_Reach.OQHost (Bq "c.d:82")) = false
+          /\ C02_AuthMain.nonfile_input (Bq "http://a.b:81/p") = true) as (C1 & K1 & KS & NF).
+  { vm_compute in Ep. inversion Ep; subst u. vm_compute. repeat split; reflexivity. }
+  assert (ser u' = Bq "http://c.d:82/p" /\ known_c10_long (ht u') = false /\ C02_Reach.Known_file_drive u' = false
+          /\ nlen (ser u') <= U32_MAX_P
+          /\ (has_authority_b u = true /\ hosti u' <> HI_None)) as (S' & C2 & K2 & L2 & G2).
+  { vm_compute in Ep. inversion Ep; subst u. vm_compute in Eo. inversion Eo; subst u'.
+    split; [vm_compute; reflexivity|]. split; [vm_compute; reflexivity|]. split; [vm_compute; reflexivity|].
+    split; [vm_compute; intros X; discriminate X|]. split; [vm_compute; reflexivity | vm_compute; intros X; discriminate X]. }
+  split; [exact S'|]. split; [|split].
+  - apply (R3K_step true idna_long u (C02_Reach.OQHost (Bq "c.d:82")) u').
+    + exact (R3K_parse true idna_long None _ u U1 Ep K1 C1).
+    + exact U2.
+    + exact (C02_Stmt4.known_step3_2 _ _ _ _ u _ KS).
+    + exact Eo.
+    + exact K2.
+    + exact C2.
+  - apply (RC6K_step true idna_long u (C02_Reach.OQHost (Bq "c.d:82")) u').
+    + exact (RC6K_parse true idna_long None _ u U1 NF Ep C1).
+    + exact U2.
+    + exact KS.
+    + exact Eo.
+    + exact L2.
+    + exact C2.
+  - apply (CRFK_step true idna_long u (C05_History.OQHost (Bq "c.d:82")) u').
+    + exact (CRFK_parse true idna_long None _ u Ep C1).
+    + cbn [C05_CompSteps3.step_gate3]. unfold C05_CompReach.host_gate. destruct G2 as [G2a G2b]. split.
+      * intros X. rewrite G2a in X. discriminate X.
+      * intros _ X. contradiction.
+    + cbn [C05_History.apply_op]. rewrite drop_status_fst. exact Eo.
+    + exact C2.
+Qed.
